@@ -77,11 +77,14 @@ Fixpoint extract_rec (extract_id parent_id : nat) (new_key : string) (t : tree) 
 Record actx := ACtx {
   cx_key_of : nat -> res string;          (* key_of *)
   cx_collect : string -> res tree;        (* collect *)
+  cx_exists : string -> bool;             (* key_exists: graph().maybe_key(key).is_some() *)
   cx_nkeys : nat                          (* graph().keys().len(), for sequential keys *)
 }.
 
 Definition graph_ctx (g : graph) : actx :=
-  ACtx (key_of g) (collect_key g) (length (gr_keys g)).
+  ACtx (key_of g) (collect_key g)
+       (fun k => match alookup k (gr_keys g) with Some _ => true | None => false end)
+       (length (gr_keys g)).
 
 Definition random_key (cx : actx) (kg : keygen) (parent : string) : res (string * keygen) :=
   match kg with
@@ -94,6 +97,11 @@ Section Ctx.
   Variable cx : actx.
 
   Definition ctx_collect (key : string) : res tree := cx_collect cx key.
+
+  (* action.rs can_inline: the referenced note exists and is not the note that holds the reference *)
+  Definition can_inline (key : string) (tree : tree) (target : nat) : bool :=
+    let ik := reference_key tree target in
+    negb (String.eqb ik key) && cx_exists cx ik.
 
   (* ---- action: Some title when offered ---- *)
   Definition action (k : akind) (target : nat) : res (option string) :=
@@ -123,10 +131,12 @@ Section Ctx.
         Ok (match get_top_level_surrounding_list_id target tree with Some _ => Some "List to sections" | None => None end)
     | InlineSection =>
         do x <- tget tree target;
-        Ok (if is_reference x then Some "Inline section" else None)
+        Ok (if is_reference x && can_inline key tree target &&
+               match get_surrounding_section_id target tree with Some _ => true | None => false end
+            then Some "Inline section" else None)
     | InlineQuote =>
         do x <- tget tree target;
-        Ok (if is_reference x then Some "Inline quote" else None)
+        Ok (if is_reference x && can_inline key tree target then Some "Inline quote" else None)
     | SectionToList =>
         Ok (if tree_is_header target tree then Some "Section to list" else None)
     end.
